@@ -179,10 +179,9 @@ func (t *WebsocketTransport) LogTraffic(logFile io.Writer) {
 
 func (t *WebsocketTransport) cleanup(code websocket.StatusCode) error {
 	var err error
-	if t.queue != nil {
-		close(t.queue)
-		t.queue = nil
-	}
+	// The queue is left open: the reader goroutine may still be delivering a frame to it, and the transport can be
+	// closed more than once (by a failed negotiation step and then by Disconnect). Cancelling closeCtx below is what
+	// ends Read and the reader goroutine.
 	if t.wsConn != nil {
 		err = t.wsConn.Close(websocket.StatusGoingAway, "Done")
 		t.wsConn = nil
